@@ -135,6 +135,18 @@ def h_mutex_decl(ctx, cls, kind, gi):
         ctx.check("two members of an exclusivity group are never accepted together", inst is None)
 
 
+def h_childtypes(ctx, cls):
+    """the class of every declared sub-aggregate / list member is exported, so the reader can find it by tag"""
+    K = ofxgen.class_by_name(cls)
+    subs = [(a, c.__type__) for a, c in K.spec.items() if isinstance(c, Types.SubAggregate)]
+    a, T = subs[ctx.choice("child", list(range(len(subs))))]
+    ctx.check("the class of a declared child is exported under its own name", getattr(ofxtools.models, T.__name__, None) is T)
+    root = ET.Element(T.__name__)
+    inst, _ = try_convert(root)
+    ctx.check("a child element is resolved to the declared class (or refused only for missing required content)",
+              inst is None or type(inst) is T)
+
+
 def h_lookup(ctx, names):
     """a root element with a symbolic tag among `names` is converted by the class of that name"""
     tag = ctx.enum("tag", names)
@@ -145,10 +157,10 @@ def h_lookup(ctx, names):
         ctx.check("the tag resolves to the model class of the same name", type(inst).__name__ == tag)
     else:
         K = getattr(ofxtools.models, tag, None)
-        ctx.check("every exported aggregate is found by its tag", K is not None and K.__name__ == tag)
+        ctx.check("every aggregate class the models package defines is found by its tag", K is not None and K.__name__ == tag)
 
 
-HARNESSES = dict(child=h_child, lists=h_lists, mutex_decl=h_mutex_decl, lookup=h_lookup)
+HARNESSES = dict(childtypes=h_childtypes, child=h_child, lists=h_lists, mutex_decl=h_mutex_decl, lookup=h_lookup)
 
 META = dict(
     bounds=dict(classes="every aggregate class exported by ofxtools.models (exhaustive in both tiers)",
@@ -173,13 +185,15 @@ def instances(tier, seed):
         for a, c in K.spec_no_listaggregates.items():
             if isinstance(c, Types.Element):
                 mk(f"child[{n}.{a}]", "child", dict(cls=n, attr=a))
+        if K.subaggregates:
+            mk(f"childtypes[{n}]", "childtypes", dict(cls=n))
         if ofxgen.list_attrs(K):
             mk(f"lists[{n}]", "lists", dict(cls=n, nmem=1 if not full else 2), max_paths=2000)
         for kind in ("optionalMutexes", "requiredMutexes"):
             for gi, g in enumerate(ofxgen.all_mutexes(K, kind)):
                 if len(g) <= 5:
                     mk(f"mutex_decl[{n},{kind[:3]},{gi}]", "mutex_decl", dict(cls=n, kind=kind, gi=gi))
-    names = [c.__name__ for c in classes]
+    names = sorted(set([c.__name__ for c in classes] + [c.__name__ for c in ofxgen.defined_classes()]))
     for i in range(0, len(names), 40):
         mk(f"lookup[{i}]", "lookup", dict(names=names[i:i + 40]), allow_vacuous=False)
     return out
